@@ -50,5 +50,12 @@ def cases(rng, tier, nbase=None, **kw):
     return out
 
 
+def panic_expected(c):
+    """the generator documents a panic for a struct ending in a runtime-sized array (always host-shareable in these
+    programs) unless encase is on and the bytemuck host-shareable derive is off"""
+    o = c["opts"]
+    return bool(c.get("needs_encase")) and (not o.get("encase") or bool(o.get("bm_host")))
+
+
 def nontrivial(c, r):
     return len(c["truth"]) >= 2 and r.get("result") == "ok"
